@@ -46,8 +46,27 @@ Proof.
 Qed.
 
 (* ---------- struct fields ---------- *)
+(* an empty value of an omittable type is the zero value the decoder leaves in the untouched field *)
+Lemma empty_zero : forall s v, omittable s = true -> is_empty s v = true -> v = zero_of s.
+Proof.
+  intros s v Ho He. destruct s; try discriminate; cbn [is_empty zero_of] in *.
+  - destruct v; try discriminate. destruct b; [discriminate|reflexivity].
+  - destruct v; try discriminate. apply Z.eqb_eq in He. subst. reflexivity.
+  - destruct v; try discriminate. apply Z.eqb_eq in He. subst. reflexivity.
+  - destruct v; try discriminate. apply Z.eqb_eq in He. subst. reflexivity.
+  - destruct v; try discriminate. apply String.eqb_eq in He. subst. reflexivity.
+  - destruct v; try discriminate. apply String.eqb_eq in He. subst. reflexivity.
+  - destruct v; try discriminate. apply String.eqb_eq in He. subst. reflexivity.
+  - destruct v; try discriminate. reflexivity.
+  - destruct v; try discriminate. apply Z.eqb_eq in He. subst. reflexivity.
+  - destruct ptr; [|discriminate]. destruct v; try discriminate. reflexivity.
+  - destruct v; try discriminate. destruct l; [reflexivity|discriminate].
+  - destruct v; try discriminate. reflexivity.
+Qed.
+
 Lemma fields_rt : forall fs,
   Forall (fun f : string * fmode * schema => wf_schema (snd f) = true -> rt (snd f)) fs ->
+  forallb (fun f => match f with (_, m, x) => negb (is_omit m) || omittable x end) fs = true ->
   forallb (fun f => match f with (_, _, x) => wf_schema x end) fs = true ->
   str_nodup (map fkey fs) = true ->
   forall vs, fields_have_type has_type fs vs = true ->
@@ -59,26 +78,32 @@ Lemma fields_rt : forall fs,
               (forall k, In k (map fkey fs) -> ~ In k (map fst kvs) -> jlookup k o = None) ->
               dec_fields (jdecode true) o fs = Ok vs.
 Proof.
-  intros fs HF. induction HF as [|[[k m] s] fr Hx _ IH]; intros Hwf Hnd vs Ht.
+  intros fs HF. induction HF as [|[[k m] s] fr Hx _ IH]; intros Hom Hwf Hnd vs Ht.
   - destruct vs; [|discriminate]. exists []. repeat split; auto.
   - destruct vs as [|v vr]; [discriminate|].
     cbn [fields_have_type] in Ht. apply andb_prop in Ht. destruct Ht as [Hv Hr].
     cbn [forallb] in Hwf. apply andb_prop in Hwf. destruct Hwf as [Hws Hwr].
+    cbn [forallb] in Hom. apply andb_prop in Hom. destruct Hom as [Homs Homr].
     cbn [map] in Hnd. unfold fkey at 1 in Hnd. cbn [fst] in Hnd.
     apply str_nodup_cons in Hnd. destruct Hnd as [Hk Hndr].
-    destruct (IH Hwr Hndr vr Hr) as (kr & Er & Sub & Ndr & Dr).
+    destruct (IH Homr Hwr Hndr vr Hr) as (kr & Er & Sub & Ndr & Dr).
     cbn [enc_fields dec_fields].
-    destruct (is_opt m && is_nil v) eqn:E.
-    + (* optional nil field: skipped by the encoder, absent for the decoder *)
-      apply andb_prop in E. destruct E as [Em En]. destruct v; try discriminate.
+    destruct ((is_omit m && is_empty s v) || (is_opt m && is_nil v)) eqn:E.
+    + (* optional nil field / empty omitempty field: skipped by the encoder, absent for the decoder, which leaves
+         nil resp. the zero value *)
+      assert (Hz : (is_opt m = true /\ v = VNil) \/ (is_opt m = false /\ is_omit m = true /\ v = zero_of s)).
+      { destruct m; cbn [is_omit is_opt andb orb negb] in E, Homs; try discriminate.
+        - left. split; [reflexivity|]. destruct v; try discriminate; reflexivity.
+        - right. split; [reflexivity|]. split; [reflexivity|]. apply empty_zero; [exact Homs|rewrite orb_false_r in E; exact E]. }
       exists kr. split; [exact Er|]. split; [|split; [exact Ndr|]].
       * intros k' H. right. apply Sub. exact H.
       * intros o H1 H2.
         assert (Hkn : ~ In k (map fst kr)) by (intros H; apply Hk, Sub, H).
-        rewrite (H2 k (or_introl eq_refl) Hkn). rewrite Em.
-        rewrite (Dr o H1); [reflexivity|].
-        intros k' Hin Hn. apply H2; [right; exact Hin|exact Hn].
-    + cbn [orb] in Hv. cbn [snd] in Hx.
+        rewrite (H2 k (or_introl eq_refl) Hkn).
+        assert (Hdr : dec_fields (jdecode true) o fr = Ok vr).
+        { apply (Dr o H1). intros k' Hin Hn. apply H2; [right; exact Hin|exact Hn]. }
+        destruct Hz as [[Em ->]|[Em [Eo ->]]]; rewrite Em; [|rewrite Eo]; rewrite Hdr; reflexivity.
+    + try rewrite E in Hv. cbn [orb] in Hv. cbn [snd] in Hx.
       destruct (Hx Hws v Hv) as (j & Ej & Dj).
       rewrite Ej, Er. cbn [bind].
       exists ((k, j) :: kr). split; [reflexivity|]. split; [|split].
@@ -99,6 +124,7 @@ Proof.
   intros ptr code fs HF Hwf v Ht.
   cbn [wf_schema] in Hwf. apply andb_prop in Hwf. destruct Hwf as [Hwf Hcode].
   apply andb_prop in Hwf. destruct Hwf as [Hwf Hnd]. apply andb_prop in Hwf. destruct Hwf as [Hok Hws].
+  apply andb_prop in Hok. destruct Hok as [Hok Hom].
   assert (Hbody : forall x, (match x with VList vs => fields_have_type has_type fs vs | _ => false end) = true ->
             exists o, (match x with
                        | VList vs => if fields_ok fs then let* kvs := enc_fields jencode fs vs in Ok (JObj (code_entry code ++ kvs))
@@ -106,7 +132,7 @@ Proof.
                        | _ => Err EType end) = Ok (JObj o)
                       /\ check_code code o = None /\ dec_fields (jdecode true) o fs = match x with VList vs => Ok vs | _ => Err EType end).
   { intros x Hx. destruct x; try discriminate. rewrite Hok.
-    destruct (fields_rt fs HF Hws Hnd l Hx) as (kvs & Ek & Sub & Ndk & Dk).
+    destruct (fields_rt fs HF Hom Hws Hnd l Hx) as (kvs & Ek & Sub & Ndk & Dk).
     rewrite Ek. cbn [bind]. exists (code_entry code ++ kvs). split; [reflexivity|].
     destruct code as [c|].
     - apply andb_prop in Hcode. destruct Hcode as [Hc Hty]. apply N.ltb_lt in Hc.
@@ -295,7 +321,7 @@ Proof.
   intros fs vs kvs HF. revert vs kvs. induction HF as [|[[k m] s] fr Hx _ IH]; intros vs kvs E.
   - destruct vs; inversion E. reflexivity.
   - destruct vs as [|v vr]; [discriminate|]. cbn [enc_fields] in E.
-    destruct (is_opt m && is_nil v); [eapply IH; exact E|].
+    destruct ((is_omit m && is_empty s v) || (is_opt m && is_nil v)); [eapply IH; exact E|].
     apply bind_ok in E. destruct E as (j & Ej & E). apply bind_ok in E. destruct E as (r & Er & E).
     inversion E; subst. cbn [forallb snd]. rewrite (Hx v j Ej), (IH vr r Er). reflexivity.
 Qed.
